@@ -218,6 +218,16 @@ def generate(n, seed, containers=None):
                         ex = rng.choice([e for e in exts if len(e) == nex])
                         if add(sel, c, ex, rng.choice([0, 0, 1, 2])): break
                     if len(forms) >= n: return forms
+    # wide invocations ("any number of extra external iterables"): up to 16 inputs in one call
+    lens = list(EXT_LEN)
+    wide = 0
+    for nex in (8, 9, 10, 12):
+        for c in cidx[:4]:
+            sel = rng.choice([s for s in sels if len(s) == 4 and all(f != "n" for f, _ in s)
+                              and (CONTAINERS[c][3] or not any(m for _, m in s))])
+            ex = [(j % len(EXTERNALS), lens[(j * 7 + nex) % 3] if j == nex // 2 else "equal") for j in range(nex)]
+            if len(forms) < n + 16 and add(sel, c, ex, 0): wide += 1
+    n += wide
     flat = [s for s in sels if all(f != "n" for f, _ in s)]
     while len(forms) < n:
         add(rng.choice(sels if rng.random() < 0.3 else flat), rng.choice(cidx), rng.choice(exts), rng.choice([0, 0, 1, 2]))
